@@ -1036,6 +1036,10 @@ class Host(utils.EventEmitter):
         self.transport_lost = True
         if self.pending_response and not self.pending_response.done():
             self.pending_response.set_exception(TransportLostError('transport lost'))
+        elif self.pending_response is None and self.command_semaphore.locked():
+            # The controller was holding commands back: it will never allow one now.
+            # Let the senders in, they fail with TransportLostError
+            self.command_semaphore.release()
 
         # All the links are gone with the transport: tear them down like disconnections
         for handle in [*self.connections, *self.cis_links, *self.sco_links]:
